@@ -158,6 +158,10 @@ func c15Program(k int, xs, ys jast.Node) (jast.Node, string) {
 				&jast.Assign{Name: "g", Val: lam([]string{"x"}, &jast.Bin{Op: "*", L: v("x"), R: &jast.Num{V: 2}})}, e}}
 		}
 		return blk(&jast.Array{Items: []jast.Node{
+			// what is kept is the function itself (functions are equal only to themselves)
+			&jast.Bin{Op: "=", L: call("distinct", f), R: f}, &jast.Bin{Op: "=", L: call("distinct", v("sum")), R: v("sum")},
+			&jast.Bin{Op: "=", L: &jast.Pred{X: call("distinct", &jast.Array{Items: []jast.Node{g, f, g}}), Filters: []jast.Node{&jast.Num{V: 1}}}, R: f},
+			&jast.Bin{Op: "=", L: call("distinct", f), R: g},
 			call("map", call("distinct", &jast.Array{Items: []jast.Node{f, g, f, v("sum"), v("count"), v("sum")}}), lam([]string{"h"}, &jast.Call{Fn: v("h"), Args: []jast.Node{&jast.Num{V: 5}}})),
 			call("count", call("distinct", call("append", &jast.Array{Items: []jast.Node{
 				&jast.Array{Items: []jast.Node{f}}, &jast.Array{Items: []jast.Node{g}}, &jast.Array{Items: []jast.Node{f}}, &jast.Array{},
